@@ -1,7 +1,8 @@
 (* C08 -- property theorems only.  Bodies live in Proofs.v / Code.v.
    Angles are in radians inside [true_sep]; [from_rad uout] converts to the requested unit. *)
 From Coq Require Import Reals Lra QArith Qreals List.
-From EsVerif.C08 Require Import Gen Model Spec Proofs Code SrcLib Src SrcProofs.
+From Coq Require PrimFloat.
+From EsVerif.C08 Require Import Gen Model Spec Proofs Code SrcLib Src SrcProofs SrcLibF SrcF FProofs Cond.
 Open Scope R_scope.
 
 (* The two formulas of the chord-based function are the great-circle angle of unit vectors. *)
@@ -146,6 +147,34 @@ Proof.
   split; [exact outs_ok_sound|]. split; [exact all_same_sound|]. split; [exact all_close_sound|].
   split; [exact shift_triangle|]. split; [exact pi_lo_lt_PI | exact PI_lt_pi_hi].
 Qed.
+
+(* Binary64 reading of the source text (SrcF.v, same translation with IEEE operations and arbitrary libm
+   oracles O): identical inputs give exactly +0, whatever the rounding and whatever sin/cos/arcsin/arccos
+   return -- the "exactly zero for identical inputs" clause at the level of the floats. *)
+Theorem C08_float_zero_identical :
+  (forall O uin uout ra dec, PrimFloat.is_nan ra = false -> PrimFloat.is_nan dec = false ->
+     sphdist_f O uin uout ra dec ra dec = PrimFloat.zero)
+  /\ (forall O ra dec, PrimFloat.is_nan (d2r_f ra) = false -> PrimFloat.is_nan (d2r_f dec) = false ->
+     gcirc_f O ra dec ra dec = PrimFloat.zero).
+Proof. split; [exact sphdist_f_identical | exact gcirc_f_identical]. Qed.
+
+(* Conditioning of the cosine formula: an error e in cosdis moves the angle by at most
+   2 asin (sqrt (e/2)), attained next to cosdis = 1.  Hence 6e-16 (2.7 ulp of 1) costs at most the
+   statement's 2e-6 degree, and half an ulp (2^-53) already costs more than 8e-7 degree, which is why the
+   cosine-based function cannot be held to the chord function's 1e-11 degree. *)
+Theorem C08_acos_conditioning : forall c c' e, -1 <= c <= 1 -> -1 <= c' <= 1 -> Rabs (c - c') <= e -> e <= 2 ->
+  Rabs (acos c - acos c') <= 2 * asin (sqrt (e / 2)).
+Proof. exact acos_conditioning. Qed.
+
+Theorem C08_acos_conditioning_sharp : forall e, 0 <= e <= 2 -> acos (1 - e) - acos 1 = 2 * asin (sqrt (e / 2)).
+Proof. exact acos_near_one. Qed.
+
+Theorem C08_gcirc_conditioning : forall c c', -1 <= c <= 1 -> -1 <= c' <= 1 -> Rabs (c - c') <= 6e-16 ->
+  Rabs (acos c - acos c') <= tol_in Rad 2e-6.
+Proof. exact gcirc_conditioning. Qed.
+
+Theorem C08_cosine_formula_limit : 8e-7 < r2d (acos (1 - / 2 ^ 53) - acos 1).
+Proof. exact cosine_formula_limit. Qed.
 
 (* Non-vacuity: a quarter turn along the equator is 90 degrees in the model as coded (chord
    branch), the antipode is 180 degrees (cross-product branch: |u-v|^2 = 4 >= threshold), and a
